@@ -133,7 +133,7 @@ def all_keys():
         keys += [k for k in ex['keys'] if k not in keys]
     else:
         try:
-            keys += [k for k in strutils()._SANITIZE_KEYS if k not in keys and isinstance(k, str)]
+            keys += [k for k in gen_mask.sanitize_keys(strutils()) if k not in keys and isinstance(k, str)]
         except Exception:
             pass
     return keys
@@ -509,7 +509,7 @@ def impl_mask(message, mask):
 
 def impl_sub(which, idx, key, message, mask):
     s = strutils()
-    table = {'2': s._SANITIZE_PATTERNS_2, '1': s._SANITIZE_PATTERNS_1, 'W': s._SANITIZE_PATTERNS_WILDCARD}[which]
+    table = gen_mask.pattern_tables(s)[which]          # HarnessBlind if the tables cannot be located
     tmpl = {'2': r'\g<1>' + mask + r'\g<2>', '1': r'\g<1>' + mask, 'W': r'\g<1>'}[which]
     try:
         return 'ok\t' + hexs(re.sub(table[key][idx], tmpl, message))
@@ -819,19 +819,46 @@ def minimise(case):
     return case
 
 
+# The reviewed patterns of strutils.py:91-108 (the same twelve that Props/C04.lean `templates_as_reviewed` pins),
+# compiled here so that recognising the listed class KF_C04_WILDCARD depends neither on private names of the
+# implementation nor on the translator having succeeded.
+REVIEWED_FORMATS = {
+    '2': [r'(%(key)s[0-9]*\s*[=]\s*[\"\'])[^\"\']*([\"\'])',
+          r'(%(key)s[0-9]*\s*[=]\s*[\"])[^\"]*([\"])',
+          r'(%(key)s[0-9]*\s*[=]\s*[\'])[^\']*([\'])',
+          r'(%(key)s[0-9]*\s+[\"\'])[^\"\']*([\"\'])',
+          r'([-]{2}%(key)s[0-9]*\s+)[^\'\"=\s]+([\s]*)',
+          r'(<%(key)s[0-9]*>)[^<]*(</%(key)s[0-9]*>)',
+          r'([\"\']%(key)s[0-9]*[\"\']\s*:\s*[\"\'])[^\"\']*([\"\'])',
+          r'([\'"][^"\']*%(key)s[0-9]*[\'"]\s*:\s*u?[\'"])[^\"\']*([\'"])',
+          r'([\'"][^\'"]*%(key)s[0-9]*[\'"]\s*,\s*\'--?[A-z]+\'\s*,\s*u?[\'"])[^\"\']*([\'"])',
+          r'(%(key)s[0-9]*\s*--?[A-z]+\s*)\S+(\s*)'],
+    '1': [r'(%(key)s[0-9]*\s*[=]\s*)[^\s\'\"]+'],
+    'W': [r'([\'\"][^\"\']*%(key)s[0-9]*[\'\"]\s*:\s*u?[\'\"].*[\'\"])[^\"\']*([\'\"])'],
+}
+_reviewed = {}
+
+
+def reviewed_patterns(key):
+    if key not in _reviewed:
+        _reviewed[key] = {g: [re.compile(f % {'key': key}, re.DOTALL | re.IGNORECASE) for f in fs]
+                          for g, fs in REVIEWED_FORMATS.items()}
+    return _reviewed[key]
+
+
 def reference_loop(message, mask, wildcard):
-    """mask_password's loop over the module's own compiled patterns, with or without the WILDCARD step
+    """The documented loop of mask_password over the REVIEWED patterns, with or without the WILDCARD step
     (used only to recognise the listed class KF_C04_WILDCARD)."""
-    st = strutils()
-    for key in st._SANITIZE_KEYS:
+    for key in all_keys():
         if key in message.lower():
-            for p in st._SANITIZE_PATTERNS_2[key]:
-                message = re.sub(p, r'\g<1>' + mask + r'\g<2>', message)
-            for p in st._SANITIZE_PATTERNS_1[key]:
-                message = re.sub(p, r'\g<1>' + mask, message)
+            pats = reviewed_patterns(key)
+            for p in pats['2']:
+                message = p.sub(r'\g<1>' + mask + r'\g<2>', message)
+            for p in pats['1']:
+                message = p.sub(r'\g<1>' + mask, message)
             if wildcard:
-                for p in st._SANITIZE_PATTERNS_WILDCARD[key]:
-                    message = re.sub(p, r'\g<1>', message)
+                for p in pats['W']:
+                    message = p.sub(r'\g<1>', message)
     return message
 
 
